@@ -73,6 +73,18 @@ pub fn in_region(p: usize) -> bool {
     p >= REGION_BASE.load(Ordering::Relaxed) && p < REGION_END.load(Ordering::Relaxed)
 }
 
+/// Pattern-fill a block; blocks above 1 MiB only at both ends (64 KiB each), so that huge chunks stay cheap
+/// (slabs are mapped without reservation: untouched pages cost nothing).
+#[inline]
+unsafe fn fill_block(addr: usize, size: usize, byte: u8) {
+    if size <= (1 << 20) {
+        std::ptr::write_bytes(addr as *mut u8, byte, size);
+    } else {
+        std::ptr::write_bytes(addr as *mut u8, byte, 1 << 16);
+        std::ptr::write_bytes((addr + size - (1 << 16)) as *mut u8, byte, 1 << 16);
+    }
+}
+
 #[derive(Clone, Copy, Debug, PartialEq, Eq, Hash)]
 pub enum Answer {
     /// grant at the least-aligned legal base (valuation == log2(align))
@@ -357,7 +369,7 @@ impl ExecEnv {
                 // fill red zones (everything between the previous block and this one, and after)
                 let gap_lo = slab.base + slab.cursor;
                 std::ptr::write_bytes(gap_lo as *mut u8, FILL_RED, addr - gap_lo);
-                std::ptr::write_bytes(addr as *mut u8, FILL_FRESH, size);
+                fill_block(addr, size, FILL_FRESH);
                 std::ptr::write_bytes((addr + size) as *mut u8, FILL_RED, REDZONE);
                 slab.cursor = addr + size - slab.base;
                 granted = Some(addr);
@@ -419,7 +431,7 @@ impl ExecEnv {
                     self.faults.push(EnvFault::CrossArenaFree { serial: s, owner: o, acting });
                 }
                 b.freed_step = Some(step);
-                std::ptr::write_bytes(b.base as *mut u8, FILL_FREED, b.size);
+                fill_block(b.base, b.size, FILL_FREED);
                 let fl = FreeLog { serial: b.serial, arena: b.arena, base: b.base, size: b.size };
                 self.frees.push(fl);
             }
